@@ -266,8 +266,9 @@ def replay_relabel(gridname, op):
 
 
 def ob_swapped_normals(op):
-    """bounded: swapped_normals=[2] == physically reversing the orientation of the elements of domain 2 (DP0 x DP0 spaces; the element
-    and DOF numbering is unchanged, only local vertex order flips): equal up to singular-quadrature error."""
+    """bounded: swapped_normals=[2] == physically reversing the orientation of the elements of domain 2 (DP0 x DP0 spaces, P1 x P1 for
+    the hypersingular operators; element, vertex and DOF numbering unchanged, only the local vertex order flips): equal up to
+    singular-quadrature error."""
     import bempp_cl.api as api
 
     warnings.simplefilter("ignore")
@@ -278,12 +279,13 @@ def ob_swapped_normals(op):
         if g.domain_indices[j] == 2:
             el[[1, 2], j] = el[[2, 1], j]
     g2 = SG.make_grid(g.vertices, el, g.domain_indices)
-    a0 = api.function_space(g, "DP", 0, swapped_normals=[2])
-    b0 = api.function_space(g2, "DP", 0)
+    kind, deg = (("P", 1) if op.endswith("hyp") else ("DP", 0))
+    a0 = api.function_space(g, kind, deg, swapped_normals=[2])
+    b0 = api.function_space(g2, kind, deg)
     A = Z.dense(Z.boundary_operator(op, a0, a0, a0, par))
     B = Z.dense(Z.boundary_operator(op, b0, b0, b0, par))
     err = Z.relerr(B, A)
-    plain = api.function_space(g, "DP", 0)
+    plain = api.function_space(g, kind, deg)
     C = Z.dense(Z.boundary_operator(op, plain, plain, plain, par))
     differs = Z.relerr(C, A)
     if err > 1e-4:
@@ -354,8 +356,12 @@ def main():
             run.add("matrix.motion+scaling.%s[%s]" % (op, gname), "bounded", ob_matrix_motion, gname, op)
     for op in ("laplace_single", "laplace_double", "laplace_hyp", "helmholtz_adjoint") + (("modified_single", "helmholtz_hyp") if thorough else ()):
         run.add("matrix.relabel.%s[octa]" % op, "bounded", ob_matrix_relabel, "octa", op)
-    for op in ("laplace_single", "laplace_double", "laplace_adjoint", "helmholtz_double"):
+    for op in ("laplace_single", "laplace_double", "laplace_adjoint", "helmholtz_double", "laplace_hyp", "helmholtz_hyp", "modified_hyp"):
         run.add("matrix.swapped-normals.%s" % op, "bounded", ob_swapped_normals, op)
+    sw = ("DP", 1, {"swapped_normals": [2]})
+    for at, pc in (("default_scalar", "-"), ("laplace_hypersingular", "-"), ("helmholtz_hypersingular", "ki!=0"), ("modified_helmholtz_hypersingular", "w")):
+        run.add("pipeline.%s[tetra, swapped normals on one domain of the test space only]" % at, "post", PL.ob_pipeline, "tetra", sw, dp1, [1, 2, 2, 1], None, at, pc)
+        run.add("pipeline.%s[tetra, swapped normals on the trial space only]" % at, "post", PL.ob_pipeline, "tetra", dp1, sw, [1, 2, 2, 1], None, at, pc)
     run.bound("kernel lemmas: unbounded in all values; far-field kernels are direction-based and covered in C08")
     run.bound("pipeline: 72 two-element meshes; whole-matrix checks: octahedron (thorough: + screen), orders (3,3)/(4,6)")
     run.assume("SO(3) is generated by the rotations about the coordinate axes; rigid motions = rotations o translations")
